@@ -90,6 +90,7 @@ class Engine:
     self.defs = []  # total definitions kept out of the feasibility solver
     self.model = None
     self.memo = {}
+    self.decided = {}
     self.fresh_counter = itertools.count()
     self.max_decisions = max_decisions
     self.maybe_infeasible = False
@@ -145,6 +146,16 @@ class Engine:
       return True
     if z3.is_false(cond):
       return False
+    cid = cond.get_id()
+    hit = self.decided.get(cid)
+    if hit is not None:
+      # the same condition was already decided on this path
+      return hit[0]
+    val = self._decide(cond)
+    self.decided[cid] = (val, cond)
+    return val
+
+  def _decide(self, cond):
     i = len(self.trace)
     if i >= self.max_decisions:
       raise PathAbort('bound-hit: too many decisions')
@@ -254,11 +265,15 @@ class Engine:
     m = s.model() if r == 'sat' else None
     return r, m, s
 
-  def prove(self, goal, hints=(), timeout_ms=30000):
-    """Returns ('proved'|'cex'|'unknown', model, smt2)."""
+  def prove(self, goal, hints=(), timeout_ms=30000, use_defs=True):
+    """Returns ('proved'|'cex'|'unknown', model, solver).
+
+    use_defs=False proves from fewer assumptions (sound, cheaper); a 'cex'
+    obtained that way may violate a definition and must be replayed."""
     goal = _as_bool_term(goal)
     r, m, s = self.check_sat(
-        extra=list(hints) + [z3.Not(goal)], timeout_ms=timeout_ms)
+        extra=list(hints) + [z3.Not(goal)], timeout_ms=timeout_ms,
+        use_defs=use_defs)
     if r == 'unsat':
       return 'proved', None, s
     if r == 'sat':
